@@ -95,7 +95,7 @@ def Kind.ofName? : String → Option Kind
 /-- one stored reference: the offset found in a field of the image, the kind of object the field is
     declared to designate, the bytes that object's layout needs (from its own contents), for rules
     the opcode found there, and what the referring field expects (0 anything, 1 a `grouping` rule,
-    2 a swap rule) -/
+    2 a swap rule, 1000 + n a rule of opcode n) -/
 structure Ref where
   kind : Kind
   off : Nat
@@ -123,6 +123,7 @@ def objsOK (hs used : Nat) : Nat → List Obj → Bool
 def expectOK (r : Ref) : Bool :=
   if r.expect == 1 then r.opcode == CTO_Grouping
   else if r.expect == 2 then r.opcode == CTO_SwapCc || r.opcode == CTO_SwapCd || r.opcode == CTO_SwapDd
+  else if r.expect ≥ 1000 then r.opcode + 1000 == r.expect    -- an indicator slot: exactly the opcode the slot is for
   else true
 
 /-- classification of one reference against the object index: `none` = fine -/
@@ -347,6 +348,12 @@ def cForPassMember (cx : Ctx) : Bool := cx.t.forPass.all fun b => (resolved cx b
 def cBackPassMember (cx : Ctx) : Bool := cx.t.backPass.all fun b => (resolved cx b.2).all (passMemberOK b.1)
 def cForPassOrder (cx : Ctx) : Bool := cx.t.forPass.all fun b => pairwiseB passLeB (resolved cx b.2)
 def cBackPassOrder (cx : Ctx) : Bool := cx.t.backPass.all fun b => pairwiseB passLeB (resolved cx b.2)
+/-- every character and every cell of a character definition that is linked anywhere has its record in the
+    character / cell buckets (compileCharDef files both before it adds the rule): a lookup of the cell finds it -/
+def defFoundOK (t : Table) (r : Rule) : Bool :=
+  !isDefOpcode r.opcode ||
+    (r.chars.all (fun c => t.chars.any (·.value == c)) && r.dots.all (fun d => t.dots.any (·.value == d)))
+def cDefFound (t : Table) : Bool := t.rules.all (defFoundOK t)
 
 /-! diagnostics (strings only; not used by the proofs) -/
 
@@ -399,6 +406,8 @@ def checkTable (t : Table) (linked : List (Nat × Nat)) : List String :=
   clause (cForPassOrder cx) (fun _ => diagList "order:passchain:forward" t.forPass fun b =>
       if pairwiseB passLeB (resolved cx b.2) then none else some s!"pass={b.1}:{firstBadPair passLeB shRule (resolved cx b.2)}") ++
   clause (cBackPassOrder cx) (fun _ => diagList "order:passchain:backward" t.backPass fun b =>
-      if pairwiseB passLeB (resolved cx b.2) then none else some s!"pass={b.1}:{firstBadPair passLeB shRule (resolved cx b.2)}")
+      if pairwiseB passLeB (resolved cx b.2) then none else some s!"pass={b.1}:{firstBadPair passLeB shRule (resolved cx b.2)}") ++
+  clause (cDefFound t) (fun _ => diagList "definition:record-not-in-bucket" t.rules fun r =>
+      if defFoundOK t r then none else some s!"rule={shRule r}:cells={showWide r.dots}")
 
 end Lou.Image
